@@ -186,7 +186,10 @@ def check_inject(case, ref, builders):
 
 def fault_cases():
     """real design faults caught by checking passes, and a generator body raising once"""
-    return [("fault", k) for k in ("width", "missing-port", "orphan", "generator-once", "generator-nested", "generator-bad-params", "late-fault-shared-children")]
+    return [("fault", k) for k in ("width", "missing-port", "orphan", "generator-once", "generator-nested", "generator-bad-params", "late-fault-shared-children")] + \
+        [("fault", f"repair-child-ports/{how}") for how in ("add-port", "remove-port", "widen-port")] + \
+        [("fault", f"persistent/{f}/depth{d}") for f in ("width", "missing-port", "array-missing-port", "anon-width", "unnamed")
+         for d in (0, 1, 2)]
 
 
 def check_fault(case, ref, builders):
@@ -197,6 +200,111 @@ def check_fault(case, ref, builders):
     class Leaf:
         a = h.Port(width=2)
         b = h.Port()
+    if kind.startswith("repair-child-ports/"):
+        # a parent fails because it disagrees with a shared child's port list; the designer repairs the CHILD (which is
+        # sound and not frozen) and builds a new parent: the new design is judged against the child as it is now
+        how = kind.split("/")[1]
+
+        def build(repaired):
+            C = h.Module(name="SharedChild")
+            C.a = h.Port()
+            if how == "remove-port" or repaired and how == "add-port":
+                C.b = h.Port()
+            if how == "widen-port":
+                C.w = h.Port(width=2 if repaired else 1)
+            C.r = h.R(r=1)(p=C.a, n=C.b if "b" in C.ports else C.a)
+            return C
+
+        def parent(C, name):
+            P = h.Module(name=name)
+            P.s, P.t = h.Signal(), h.Signal()
+            P.w2 = h.Signal(width=2)
+            conns = dict(a=P.s)
+            if how == "add-port":
+                conns["b"] = P.t
+            if how == "widen-port":
+                conns["w"] = P.w2
+            P.c = C(**conns)
+            return P
+        want = serialize(h.to_proto(parent(build(True), "RepairedParent"))) if how != "remove-port" else None
+        C = build(False)
+        try:
+            h.to_proto(parent(C, "FailingParent"))
+            return (f"fault.{kind}.accepted", "ill-formed design exported", {"case": repr(case)})
+        except Exception:
+            pass
+        try:
+            if how == "add-port":
+                C.b = h.Port()
+                C.r.n = C.b
+            elif how == "widen-port":
+                C.w.width = 2
+            else:
+                return None       # (removing a port is not an edit the library offers)
+        except RuntimeError:
+            return None           # the child is closed for edits: nothing to judge
+        try:
+            got = serialize(h.to_proto(parent(C, "RepairedParent")))
+        except Exception as e:
+            return (f"fault.{kind}.stale", f"a new parent over the repaired child is refused: {type(e).__name__}: {str(e)[-140:]}",
+                    {"case": repr(case)})
+        if got != want:
+            return (f"fault.{kind}.differs", "a new parent over the repaired child exports differently from a fresh build", {"case": repr(case)})
+        return None
+    if kind.startswith("persistent/"):
+        # the failed call repeated many times, through every entry point: the original error each time, never a package -
+        # wherever in the hierarchy the fault sits and whichever (early or late) pass finds it
+        import io as _io
+        _, fault, depth = kind.split("/")
+        depth = int(depth[-1])
+
+        @h.bundle
+        class PB:
+            x = h.Signal(width=2)
+            y = h.Signal()
+        CB = h.Module(name="PersCB")
+        CB.q = PB(port=True)
+        CB.l = Leaf(a=CB.q.x, b=CB.q.y)
+        bad = h.Module(name="PersBad") if fault != "unnamed" else h.Module()
+        bad.x, bad.y = h.Signal(width=2), h.Signal()
+        if fault == "width":
+            bad.i = Leaf(a=bad.y, b=bad.y)
+        elif fault == "missing-port":
+            bad.i = Leaf(a=bad.x)
+        elif fault == "array-missing-port":
+            bad.x4 = h.Signal(width=4)
+            bad.arr = 2 * Leaf(a=bad.x4)
+        elif fault == "anon-width":
+            bad.c = CB(q=h.AnonymousBundle(x=bad.y, y=bad.y))
+        else:
+            bad.i = Leaf(a=bad.x, b=bad.y)
+        top = bad
+        for k in range(depth):
+            up = h.Module(name=f"PersUp{k}")
+            up.s2, up.s1 = h.Signal(width=2), h.Signal()
+            up.good = Leaf(a=up.s2, b=up.s1)
+            up.inner = top()
+            top = up
+        first = None
+        for attempt in range(7):
+            try:
+                h.to_proto(top)
+            except Exception as e:
+                got = (type(e).__name__, str(e))
+            else:
+                return (f"fault.persistent.accepted", f"{kind}: attempt {attempt + 1} of the same export returned a package", {"case": repr(case)})
+            if first is None:
+                first = got
+            elif got != first:
+                return (f"fault.persistent.retry-different", f"{kind}: attempt {attempt + 1} reports {got[0]}: {got[1][-90:]!r}, the "
+                                                             f"first {first[0]}: {first[1][-90:]!r}", {"case": repr(case)})
+        for entry in (h.elaborate, lambda t: h.netlist(t, _io.StringIO(), fmt="spice"), h.to_proto, h.elaborate, h.to_proto):
+            try:
+                entry(top)
+            except Exception:
+                continue
+            return (f"fault.persistent.accepted", f"{kind}: a later call through another entry point returned a result", {"case": repr(case)})
+        return None
     if kind == "late-fault-shared-children":
         # a parent that fails LATE (array width, found only when arrays are flattened) has already had its sound
         # children flattened; a different, valid parent sharing those children - reached through a port reference to a
